@@ -35,7 +35,7 @@ table = [
  ("restore handles a directory argument", "C09", "bounded[restoreCmd_RunE]: existing directory walked on disk (deleted tracked files not restored, untracked file aborted, nested deleted directory refused)"),
  ("restore --staged of a path whose staged entry already", "C09", "bounded[restoreCmd_RunE]: unchanged entry made restore --staged fail"),
  ("config values keep everything", "C20", "bounded[configCmd_RunE]: value containing '=' truncated; Config.load#bounds[splitText[1]] and #mapnil"),
- ("add checks and looks up every argument under the name", "C17", "bounded[addCmd_RunE]: 'add /abs/path/.goit/HEAD' and 'add ../<dir>/.goit/config' staged files inside .goit (the ignore check saw the spelling, the staging code the resolved path)"),
+ ("add checks and looks up every argument under the name", "C17", "cmd.addCmd.RunE#pre@add[not-meta]#1 and bounded[addCmd_RunE]: 'add /abs/path/.goit/HEAD' and 'add ../<dir>/.goit/config' staged files inside .goit (the ignore check saw the spelling, the staging code the resolved path)"),
  ("restore checks every argument", "C18", "bounded[restoreCmd_RunE]: refused only after earlier arguments had been restored"),
 ]
 log = subprocess.run(["git","-C","/repo","log","--format=%h %s"],capture_output=True,text=True).stdout.splitlines()
